@@ -87,6 +87,16 @@ fn handle(
         Verdict::Ok => Ok(true),
         Verdict::Violation(v) => Err(v),
         Verdict::Foreign(why) => {
+            // An unexpected numeric that only the sender of the line gets, while everything the
+            // model expected did arrive, is another property's business AND leaves the visible
+            // state where the model has it (every state-changing command has an expected echo):
+            // the case goes on, so that a later consequence this property owns is still seen.
+            let only_extra_replies = out.actor.is_some()
+                && out.discs.iter().all(|d| matches!(d, Disc::Extra { conn, line } if Some(*conn) == out.actor && line[0] == "S" && line[1] != "ERROR"));
+            if only_extra_replies {
+                st.count("foreign_extra_reply_tolerated");
+                return Ok(true);
+            }
             st.count("abandoned_foreign");
             if std::env::var("VERIF_DEBUG_FOREIGN").is_ok() {
                 eprintln!("[{}] foreign: after `{}`: {}", spec.id, out.sent, why);
